@@ -179,8 +179,8 @@ theorem rainPartition_cases {F : Fn α} {p : α} {cells : List (Cell α)} {daySu
     (h : rainPartition F p cells daySub srInhb bunds zBund pct soilCN adjCN zCN = some r) :
     (¬ (srInhb = false ∧ (bunds = false ∨ zBund < 0.001)) ∧ r.runoff = 0 ∧ r.infl = p ∧
         r.daySub = daySub ∧ r.cn = 0) ∨
-    ((srInhb = false ∧ (bunds = false ∨ zBund < 0.001)) ∧ r.runoff = (scsSplit p r.cn).1 ∧
-        r.infl = (scsSplit p r.cn).2 ∧ r.daySub = 0) := by
+    ((srInhb = false ∧ (bunds = false ∨ zBund < 0.001)) ∧ r.runoff = (scsSplit F p r.cn).1 ∧
+        r.infl = (scsSplit F p r.cn).2 ∧ r.daySub = 0) := by
   unfold rainPartition at h
   by_cases hb : srInhb = false ∧ (bunds = false ∨ zBund < 0.001)
   · rw [if_pos hb] at h
@@ -196,8 +196,9 @@ theorem rainPartition_cases {F : Fn α} {p : α} {cells : List (Cell α)} {daySu
     cases h
     exact Or.inl ⟨hb, rfl, rfl, rfl, rfl⟩
 
-/-- the SCS split returns `(R, P − R)`: the sum is the rain, for every curve number -/
-theorem scsSplit_sum (p cn : α) : (scsSplit p cn).1 + (scsSplit p cn).2 = p := by
+/-- the SCS split returns `(R, P − R)`: the sum is the rain, for every curve number and whatever
+`term ** 2` evaluates to -/
+theorem scsSplit_sum (F : Fn α) (p cn : α) : (scsSplit F p cn).1 + (scsSplit F p cn).2 = p := by
   unfold scsSplit
   simp only []
   split_ifs <;> simp
@@ -209,11 +210,11 @@ theorem rainPartition_sum {F : Fn α} {p : α} {cells : List (Cell α)} {daySub 
     r.runoff + r.infl = p := by
   rcases rainPartition_cases h with ⟨_, h1, h2, _, _⟩ | ⟨_, h1, h2, _⟩
   · rw [h1, h2]; simp
-  · rw [h1, h2]; exact scsSplit_sum p r.cn
+  · rw [h1, h2]; exact scsSplit_sum F p r.cn
 
 /-- signs: with non-negative rain and, where the SCS split runs, an effective curve number in
-`(0, 100]`, both parts are non-negative (hence each is at most the rain) -/
-theorem rainPartition_bounds {F : Fn α} {p : α} {cells : List (Cell α)} {daySub : Nat}
+`(0, 100]`, both parts are non-negative (hence each is at most the rain).  Law: `PowSqLaw`. -/
+theorem rainPartition_bounds {F : Fn α} (hF : PowSqLaw F) {p : α} {cells : List (Cell α)} {daySub : Nat}
     {srInhb bunds : Bool} {zBund pct soilCN zCN : α} {adjCN : Bool} {r : RainOut α}
     (h : rainPartition F p cells daySub srInhb bunds zBund pct soilCN adjCN zCN = some r)
     (hp : 0 ≤ p)
@@ -223,7 +224,7 @@ theorem rainPartition_bounds {F : Fn α} {p : α} {cells : List (Cell α)} {dayS
   rcases rainPartition_cases h with ⟨_, h1, h2, _, _⟩ | ⟨hb, h1, h2, _⟩
   · rw [h1, h2]; exact ⟨le_refl _, hp, hp, le_refl _⟩
   · obtain ⟨c1, c2⟩ := hcn hb
-    obtain ⟨b1, b2, _⟩ := scsSplit_bounds p r.cn hp c1 c2
+    obtain ⟨b1, b2, _⟩ := scsSplit_bounds hF p r.cn hp c1 c2
     rw [← h1] at b1 b2
     exact ⟨b1, b2, by linarith, by linarith⟩
 
@@ -400,17 +401,16 @@ theorem checkGroundwaterTable_frame (F : Fn α) (cells : List (Cell α)) (wt : N
     List.Forall₂ GwtFrame cells r.cells := by
   by_cases hw : wt = 1
   · subst hw
-    exact (checkGroundwaterTable_rel F cells zGW r h).imp
-      (fun x y hxy => ⟨hxy.1, hxy.2.1, hxy.2.2.1, hxy.2.2.2.1⟩)
+    exact checkGroundwaterTable_frame1 F cells zGW r h
   · rw [checkGroundwaterTable_no_table F cells wt zGW hw] at h
     cases h
     exact forall₂_refl_of (fun x => ⟨rfl, rfl, rfl, rfl⟩) cells
 
-theorem checkGroundwaterTable_inv_any (F : Fn α) (cells : List (Cell α)) (wt : Nat) (zGW : α)
-    (r : GwtOut α) (hinv : ∀ x ∈ cells, x.Inv) (h : checkGroundwaterTable F cells wt zGW = some r) :
+theorem checkGroundwaterTable_inv_any {F : Fn α} (hF : PowSqLaw F) (cells : List (Cell α))
+    (wt : Nat) (zGW : α) (r : GwtOut α) (hinv : ∀ x ∈ cells, x.Inv) (h : checkGroundwaterTable F cells wt zGW = some r) :
     ∀ y ∈ r.cells, y.Inv := by
   by_cases hw : wt = 1
-  · subst hw; exact checkGroundwaterTable_inv F cells zGW r hinv h
+  · subst hw; exact checkGroundwaterTable_inv hF cells zGW r hinv h
   · rw [checkGroundwaterTable_no_table F cells wt zGW hw] at h
     cases h; exact hinv
 
@@ -543,6 +543,8 @@ the law `1 ≤ exp x` for `x ≥ 0`; incoming cells within limits (`DrainPre` = 
 structure DayPre (F : Fn α) (W : WaterParams α) (cells : List (Cell α)) (S : DayState α) :
     Prop where
   exp : ExpLaws F
+  /-- `x ** 2 = x · x` (adjusted field capacity above the table, SCS runoff) -/
+  sq : PowSqLaw F
   pre : ∀ x ∈ cells, DrainPre x
   pond : 0 ≤ S.pond
   smt : W.irr.method = 4 → 0 ≤ W.netIrrSMT ∧ W.netIrrSMT ≤ 100
@@ -566,7 +568,7 @@ theorem day_mid (hs : DaySteps F W fm C cells S D T) (hP : DayPre F W cells S) :
   have hinv : ∀ x ∈ cells, x.Inv := fun x hx => (hP.pre x hx).inv
   have hdz : ∀ x ∈ cells, 0 < x.c.dz := fun x hx => (hinv x hx).wf.dz_pos
   have hc := day_comps hs hdz
-  have g_inv := checkGroundwaterTable_inv_any F cells _ _ _ hinv hs.hg
+  have g_inv := checkGroundwaterTable_inv_any hP.sq cells _ _ _ hinv hs.hg
   have p_inv : ∀ y ∈ T.p.1, y.Inv := by
     rcases preIrrigationR_cases _ _ _ _ _ _ _ _ _ hs.hp with e | ⟨k, _, _, hm, _, _⟩
     · rw [e]; exact g_inv
@@ -708,18 +710,19 @@ def ScsRuns (fm : FieldMngt α) : Prop :=
 def irrApplied (W : WaterParams α) (D : DayIn α) (out : DayOut α) : α :=
   if D.gs then out.irr * (W.irr.appEff / 100) else 0
 
-theorem daySteps_rain (hs : DaySteps F W fm C cells S D T) (hrain : 0 ≤ D.rain)
+theorem daySteps_rain (hF : PowSqLaw F) (hs : DaySteps F W fm C cells S D T) (hrain : 0 ≤ D.rain)
     (hcn : ScsRuns fm → 0 < T.r.cn ∧ T.r.cn ≤ 100) :
     T.r.runoff + T.r.infl = D.rain ∧ 0 ≤ T.r.runoff ∧ 0 ≤ T.r.infl ∧ pmax T.r.infl 0 = T.r.infl := by
-  obtain ⟨b1, b2, b3, b4⟩ := rainPartition_bounds hs.hr hrain hcn
+  obtain ⟨b1, b2, b3, b4⟩ := rainPartition_bounds hF hs.hr hrain hcn
   refine ⟨rainPartition_sum hs.hr, b1, b3, ?_⟩
   rw [pmax_eq]; exact max_eq_left b3
 
-theorem waterDay_partition (h : waterDay F W fm C cells S D = .ok out) (hrain : 0 ≤ D.rain)
+theorem waterDay_partition (hF : PowSqLaw F) (h : waterDay F W fm C cells S D = .ok out)
+    (hrain : 0 ≤ D.rain)
     (hcn : ScsRuns fm → 0 < out.cn ∧ out.cn ≤ 100) :
     out.infl + out.runoff = D.rain + irrApplied W D out := by
   obtain ⟨T, hs, rfl⟩ := waterDay_ok h
-  obtain ⟨r1, r2, r3, r4⟩ := daySteps_rain hs hrain hcn
+  obtain ⟨r1, r2, r3, r4⟩ := daySteps_rain hF hs hrain hcn
   have hp := infiltration_partition hs.hf
   rw [r4] at hp
   simp only [dayOutOf, irrApplied]
@@ -730,7 +733,7 @@ theorem waterDay_runoff_bounds (h : waterDay F W fm C cells S D = .ok out)
     (hcn : ScsRuns fm → 0 < out.cn ∧ out.cn ≤ 100) :
     0 ≤ out.runoff ∧ out.runoff ≤ D.rain + irrApplied W D out + S.pond := by
   obtain ⟨T, hs, rfl⟩ := waterDay_ok h
-  obtain ⟨r1, r2, r3, r4⟩ := daySteps_rain hs hrain hcn
+  obtain ⟨r1, r2, r3, r4⟩ := daySteps_rain hP.sq hs hrain hcn
   have hm := day_mid hs hP
   have h1 := infiltration_runoff_nonneg hs.hf hP.pond (fun c hc => (hm.d_inv c hc).wf.ksat_nn)
   have h2 := infiltration_runoff_le hs.hf hm.d_inv hm.d_flux hP.pond
@@ -755,9 +758,15 @@ theorem waterDay_dry (h : waterDay F W fm C cells S D = .ok out)
     (hrain : D.rain = 0) (hirr : out.irr = 0) (hpond : S.pond = 0) :
     out.infl = 0 ∧ out.runoff = 0 := by
   obtain ⟨T, hs, rfl⟩ := waterDay_ok h
-  obtain ⟨r1, r2, r3, r4⟩ := daySteps_rain hs (le_of_eq hrain.symm) hcn
-  have hi0 : T.r.infl = 0 := by linarith
-  have hr0 : T.r.runoff = 0 := by linarith
+  -- no rain: the bypass returns `(0, P)`, the SCS split takes its `term ≤ 0` branch (no `pow`)
+  have hr00 : T.r.runoff = 0 ∧ T.r.infl = 0 := by
+    rcases rainPartition_cases hs.hr with ⟨_, h1, h2, _, _⟩ | ⟨hb, h1, h2, _⟩
+    · exact ⟨h1, by rw [h2, hrain]⟩
+    · have hc : 0 < T.r.cn ∧ T.r.cn ≤ 100 := hcn hb
+      rw [h1, h2, hrain, scsSplit_zero F hc.1 hc.2]; exact ⟨rfl, rfl⟩
+  have hi0 : T.r.infl = 0 := hr00.2
+  have hr0 : T.r.runoff = 0 := hr00.1
+  have r4 : pmax T.r.infl 0 = T.r.infl := by rw [hi0]; simp [pmax]
   have hkd := ((day_comps hs hdz).all (fun c => 0 ≤ c.ksat) hk).2.2.1
   simp only [dayOutOf] at hirr
   have := infiltration_dry hs.hf hkd (by rw [r4, hi0, hirr]; simp) hpond
@@ -966,7 +975,7 @@ theorem map_pair_eq {β γ : Type} (f : Cell α → β) (g : Cell α → γ) :
 
 /-- with a water table, at the end of the day (and at every moment after step 1) the adjusted
 field capacity lies between field capacity and saturation -/
-theorem waterDay_fcAdj_range (h : waterDay F W fm C cells S D = .ok out)
+theorem waterDay_fcAdj_range (hF : PowSqLaw F) (h : waterDay F W fm C cells S D = .ok out)
     (hwt : W.waterTable = 1) (hwf : ∀ x ∈ cells, x.c.WF) :
     ∀ y ∈ out.cells, y.c.thFC ≤ y.fcAdj ∧ y.fcAdj ≤ y.c.thS := by
   obtain ⟨T, hs, rfl⟩ := waterDay_ok h
@@ -974,7 +983,7 @@ theorem waterDay_fcAdj_range (h : waterDay F W fm C cells S D = .ok out)
   have hcs := day_comps hs hdz
   have hg := hs.hg
   rw [hwt] at hg
-  have r := fcAdj_range F cells D.zGW T.g hwf hg
+  have r := fcAdj_range hF cells D.zGW T.g hwf hg
   have hpair := map_pair_eq (·.c) (·.fcAdj) T.g.cells T.w.1 (hcs.w.trans hcs.g.symm)
     (day_fcAdj hs hdz).2
   exact forall_of_map_eq (fun x : Cell α => (x.c, x.fcAdj)) hpair
@@ -1235,7 +1244,8 @@ namespace DayExample
 
 def Fq : Fn ℚ :=
   { exp := fun x => if x ≤ 0 then 1 else 1 + x, log := fun x => x - 1, log10 := id,
-    pow := fun x _ => x, round0 := id, round2 := id, round3 := id, round4 := id, pyRound2 := id }
+    pow := fun x y => if y = 2 then x * x else x, round0 := id, round2 := id, round3 := id,
+    round4 := id, pyRound2 := id }
 def cq (zs : ℚ) : Comp ℚ :=
   { dz := 0.1, dzsum := zs, zMid := zs - 0.05, thS := 0.5, thFC := 0.3, thWP := 0.1,
     thDry := 0.05, tau := 0.5, ksat := 500, pen := 100, aCR := -0.5, bCR := -1, layer := 1 }
@@ -1292,6 +1302,7 @@ theorem runs : ∃ out, waterDay Fq Wq fmq Cq cellsq Sq Dq = .ok out ∧
 
 theorem Fq_exp : ExpLaws Fq := ⟨fun x hx => by
   simp only [Fq]; split_ifs <;> linarith⟩
+theorem Fq_sq : PowSqLaw Fq := ⟨fun x => by simp [Fq]⟩
 theorem Fq_gw : GwExpLaws Fq ∧ GwRoundLaws Fq ∧ GwRoundSign Fq ∧ GwRound0Laws Fq :=
   ⟨⟨fun x => by simp only [Fq]; split_ifs with h <;> [norm_num; (have := not_le.mp h; linarith)]⟩,
    ⟨fun x => by simp [Fq]⟩, ⟨fun x h => by simpa [Fq] using h⟩, ⟨by simp [Fq]⟩⟩
@@ -1306,7 +1317,7 @@ theorem cells_pre : ∀ x ∈ cellsq, DrainPre x := by
             dzsum_nn := by norm_num [cq], fc_lt_s := by norm_num [cq] }
 
 theorem dayPre : DayPre Fq Wq cellsq Sq :=
-  ⟨Fq_exp, cells_pre, by norm_num [Sq], fun _ => by norm_num [Wq]⟩
+  ⟨Fq_exp, Fq_sq, cells_pre, by norm_num [Sq], fun _ => by norm_num [Wq]⟩
 
 theorem dayTrPre : DayTrPre Fq Wq Cq cellsq (fun _ => 0.1) (fun _ => 0.3) :=
   { geom := by simp only [cellsq, TrGeom, cq]; norm_num
